@@ -64,6 +64,29 @@ def handleL9 (cmd : String) (args : List String) : Option String :=
       let input ← hexB
       let ic ← nat
       pure (match fromStr vs input (ic == 1) with | some i => toString i | none => "none") : Dec String).run args).map (·.1) |>.getD "bad-op")
+  else if cmd == "optsub" then
+    -- `optsub <cur> <line>`: cur = `~` | name k (field val|~)… ; line = `~` | name k (field val)…  (all hex) ; schema of the corpus enum
+    some (((do
+      let decCur : Dec (Option SubVal) := do
+        let t ← tok
+        if t == "~" then pure none else
+        let name ← ofOpt (bytesOfHex t)
+        let fs ← listOf (do let f ← hexB; let v ← optB; pure (f, v))
+        pure (some ⟨name, fs⟩)
+      let decLine : Dec (Option SubLine) := do
+        let t ← tok
+        if t == "~" then pure none else
+        let name ← ofOpt (bytesOfHex t)
+        let fs ← listOf (do let f ← hexB; let v ← hexB; pure (f, v))
+        pure (some ⟨name, fs⟩)
+      let cur ← decCur; let line ← decLine
+      -- `OptSub` of the harness corpus: add { a, b }, sync { jobs, name }
+      let schema : Bytes → List Bytes := fun n => if n == [97, 100, 100] then [[97], [98]] else [[106, 111, 98, 115], [110, 97, 109, 101]]
+      pure (match updateOptSub schema cur line with
+        | .error _ => "ERR MissingSubcommand"
+        | .ok none => "OK ~"
+        | .ok (some v) => s!"OK {hexOfBytes v.name} {v.fields.length}" ++
+            String.join (v.fields.map fun p => s!" {hexOfBytes p.1} " ++ (match p.2 with | some x => hexOfBytes x | none => "~"))) : Dec String).run args).map (·.1) |>.getD "bad-op")
   else none
 
 end Clap.Driver
